@@ -42,7 +42,7 @@ CHECKS = {
          "DESIGN.md §4 C14"),
  "C09": ("model_checking",
          "explicit-state BFS (stateright) over the real densified sketchers to a closed state space; supervised termination cases",
-         "The complete internal state of the real OptDensMinHash / RevOptDensMinHash (hook H3) is explored to a fixed point for m<=7 (quick) / 9 (thorough) under sketch(witness item per bin), end_sketch, sketch_slice (4 chunks incl. the empty one) and reinit; each transition replays the shortest history on a fresh real instance. On every finishing edge: populated bins bit-identical, every other bin holds the (value,hash) pair of a populated bin, nb_empty=0, all positions hold hashes of streamed items, u32 view = murmur3(127) of the u64 view, equal u64 entries imply equal float/u32 entries, a second end_sketch is a no-op, sketch_slice = item-wise + end_sketch, reinit = initial state. No-op-hasher variants use the boundary identifiers u64::MAX, 0, 1 as witnesses, and for m<=2 a pair of items with bit-identical f32 uniform value (found through the real sketcher) is added with the chunks [a,b] and [b,a]. Every non-empty occupancy pattern is additionally enumerated directly up to m=10 (13). Finishing an empty stream (fresh or after reinit; end_sketch and sketch_slice(&[])) runs in sub-processes with a 5 s horizon: not returning is the violation. A watchdog turns any in-process finishing call that exceeds 20 s into a violation.",
+         "The complete internal state of the real OptDensMinHash / RevOptDensMinHash (hook H3) is explored to a fixed point for m<=7 (quick) / 9 (thorough) under sketch(witness item per bin), end_sketch, sketch_slice (4 chunks incl. the empty one) and reinit; each transition replays the shortest history on a fresh real instance. On every finishing edge: populated bins bit-identical, every other bin holds the (value,hash) pair of a populated bin, nb_empty=0, all positions hold hashes of streamed items, u32 view = murmur3(127) of the u64 view, equal u64 entries imply equal float/u32 entries, a second end_sketch is a no-op, sketch_slice = item-wise + end_sketch, reinit = initial state. No-op-hasher variants use the boundary identifiers u64::MAX, 0, 1 as witnesses, and for m<=2 a pair of items with bit-identical f32 uniform value (found through the real sketcher) is added with the chunks [a,b] and [b,a]. Every non-empty occupancy pattern is additionally enumerated directly up to m=10 (13). Finishing an empty stream (fresh or after reinit; end_sketch and sketch_slice(&[])) runs in sub-processes with a 5 s horizon: not returning is the violation. A watchdog turns any in-process finishing call that exceeds 60 s into a violation.",
          "hook H3 exposes the whole mutable state; densification reads only the occupancy pattern",
          "DESIGN.md §4 C09"),
  "C07": ("exploration",
